@@ -154,7 +154,7 @@ def register(reg, repo):
             ("published-next-state", "implies(isnone(result[0]), "
                                      "at_snapshot('pub_heap', event['context']['State']['Name']) == next_state)"),
             # C07: retry counters do not leak into the next state
-            ("C07:counters-reset", "implies(isnone(result[0]), "
+            ("C01,C07:counters-reset", "implies(isnone(result[0]), "
                                "not at_snapshot('pub_heap', 'RetryCount' in event['context']['State']) and "
                                "not at_snapshot('pub_heap', 'RetryTimeout' in event['context']['State']))"),
             ("published-data-untouched", "implies(isnone(result[0]), "
